@@ -19,10 +19,22 @@ func lockFilters() []model.FilterSpec {
 }
 
 // structuralProbes: one representative of every structure-changing operation kind and API path.
+// queryMisuseProbes: query creation that must be rejected without taking (or leaking) a lock.
+func queryMisuseProbes(x *drv.World) []model.Op {
+	ops := []model.Op{
+		{K: model.OpInvalid, Inv: drv.InvQueryRelIdx, F: 2},
+		{K: model.OpInvalid, Inv: drv.InvQueryNotInFilter, F: 0},
+	}
+	for _, d := range x.DeadSamples() {
+		ops = append(ops, model.Op{K: model.OpInvalid, Inv: drv.InvQueryDeadTarget, F: 4, QT: rel(ct.R1, d)})
+	}
+	return ops
+}
+
 func structuralProbes(x *drv.World) []model.Op {
 	m := x.M
 	if !m.Locked() {
-		return nil
+		return queryMisuseProbes(x)
 	}
 	al := m.Alive()
 	var ops []model.Op
@@ -73,7 +85,7 @@ func structuralProbes(x *drv.World) []model.Op {
 			break
 		}
 	}
-	return validOnly(m, ops)
+	return append(validOnly(m, ops), queryMisuseProbes(x)...)
 }
 
 func lockAlphabet(slots int) func(m *model.Model) []model.Op {
@@ -118,7 +130,13 @@ func lockAlphabet(slots int) func(m *model.Model) []model.Op {
 		if !m.Locked() {
 			if len(al) < 4 {
 				ops = append(ops, model.Op{K: model.OpNew, Path: model.PathMapN, Cs: ct.Of(ct.P, ct.Q)})
+				t := model.ZeroTarget
+				if len(al) > 0 {
+					t = al[0]
+				}
+				ops = append(ops, model.Op{K: model.OpNew, Path: model.PathMapN, Cs: ct.Of(ct.P, ct.R1), T: rel(ct.R1, t)})
 			}
+			ops = append(ops, model.Op{K: model.OpReset})
 			if len(al) > 0 {
 				ops = append(ops, model.Op{K: model.OpRemoveEntity, E: al[0]})
 			}
@@ -144,7 +162,7 @@ func init() {
 		pre0 = append(pre0, pq, pq, model.Op{K: model.OpNew, Path: model.PathMapN, Cs: ct.Of(ct.P, ct.R1), T: rel(ct.R1, 0)}, model.Op{K: model.OpRegister, F: 1})
 		or := drv.Oracle{World: true, Lock: true, Stats: true, Events: true, ProbeCb: true, Filters: true}
 		sc := &engine.Scenario{
-			Name: "C07-lock/4-slots", Cfgs: cfgs([]int{2}, []int{0}, []api.RelMode{api.RelByIdx}, u),
+			Name: "C07-lock/4-slots", Cfgs: append(cfgs([]int{2}, []int{0}, []api.RelMode{api.RelByIdx}, u), cfgs([]int{1}, []int{0}, []api.RelMode{api.RelByIdx}, []ct.Comp{ct.P, ct.Q, ct.T9, ct.R1})...),
 			Filters: lockFilters(), Obs: obs, Slots: 4, Oracle: or,
 			Preludes: [][]model.Op{pre0}, Alphabet: lockAlphabet(4), Probes: structuralProbes, Depth: d,
 			NonTrivial: func(x *drv.World) bool { return x.M.Locked() },
